@@ -28,6 +28,9 @@ fn worlds(thorough: bool) -> Vec<Built> {
         ("funded", vec![Op::Inc { pos: 0, liq: stdworlds::BIG, v2: false }]),
     ];
     v.push(stdworlds::build_with_roots(&stdworlds::splash_spec("c06-splash"), &splash_roots));
+    // adaptive-fee pool with the strongest control factor: four tick groups (256 ticks) away from the reference the total rate
+    // passes 65 535 (more than 16 bits) and at five it sits on the 10 % hard limit — "fee rates up to ... 10% adaptive hard limit"
+    v.push(af_world("c06-af-hot"));
     if thorough {
         v.push(stdworlds::build_with_roots(&stdworlds::std_spec("c06-std-60000-2500", [Enc::Fixed, Enc::Fixed, Enc::Dynamic], 60000, 2500), &roots[1..]));
         v.push(stdworlds::build_with_roots(&stdworlds::std_spec("c06-std-0-0", [Enc::Dynamic, Enc::Dynamic, Enc::Fixed], 0, 0), &roots[1..3]));
@@ -40,7 +43,53 @@ fn worlds(thorough: bool) -> Vec<Built> {
     v
 }
 
+fn af_world(label: &str) -> Built {
+    use super::c20_world as cw;
+    let spec = cw::AfSpec {
+        label: label.into(),
+        tick_spacing: 64,
+        fee_tier_index: 1024 + 64,
+        base_fee_rate: 3000,
+        protocol_fee_rate: 2500,
+        filter_period: 30,
+        decay_period: 600,
+        reduction_factor: 5000,
+        control_factor: 99_999,
+        max_volatility_accumulator: 350_000,
+        tick_group_size: 64,
+        major_swap_threshold_ticks: 64,
+        trade_enable_in: None,
+        sqrt_price: stdworlds::P0,
+        arrays: vec![(-1, Enc::Dynamic), (0, Enc::Fixed), (1, Enc::Dynamic)],
+        positions: vec![(-128, 128, false), (128, 5696, true), (-5632, 5696, false)],
+    };
+    let (l, w) = cw::build_af(&spec);
+    let fund = vec![Op::Inc { pos: 0, liq: stdworlds::BIG, v2: true }, Op::Inc { pos: 1, liq: stdworlds::BIG, v2: true }, Op::Inc { pos: 2, liq: stdworlds::BIG / 2, v2: true }];
+    // "hot": a large move up (about eight groups) has just happened, two seconds ago: the reference is kept, every rate is high
+    let mut hot = fund.clone();
+    hot.push(Op::Swap { a_to_b: false, exact_in: true, amount: 45_000_000, lim: Lim::None, v2: true });
+    hot.push(Op::Clock(2));
+    let roots = [("funded", fund), ("hot", hot)].iter().map(|(n, seq)| (n.to_string(), stdworlds::apply_all(&l, &w, seq))).collect();
+    Built { name: spec.label.clone(), w, roots }
+}
+
 fn alphabet(b: &Built) -> Vec<Op> {
+    if b.name.contains("-af-") {
+        let mut a = vec![];
+        for a_to_b in [true, false] {
+            a.push(Op::Swap { a_to_b, exact_in: true, amount: 1_000_000, lim: Lim::None, v2: true });
+            a.push(Op::Swap { a_to_b, exact_in: false, amount: 100_000, lim: Lim::None, v2: true });
+            a.push(Op::Swap { a_to_b, exact_in: true, amount: 45_000_000, lim: Lim::None, v2: true }); // about eight tick groups
+            a.push(Op::Swap { a_to_b, exact_in: false, amount: 20_000_000, lim: Lim::None, v2: true });
+            a.push(Op::Swap { a_to_b, exact_in: true, amount: u64::MAX >> 8, lim: Lim::NextTick, v2: true });
+            a.push(Op::Swap { a_to_b, exact_in: true, amount: 3, lim: Lim::None, v2: true });
+            a.push(Op::Swap { a_to_b, exact_in: true, amount: 1_000_001, lim: Lim::ShortOfNextTick, v2: true });
+        }
+        a.push(Op::Clock(1));
+        a.push(Op::Clock(100));
+        a.push(Op::CollectProtocol { v2: true });
+        return a;
+    }
     if b.name.contains("dust") {
         // every amount is a few units: fees are dominated by the ceil, protocol cuts by the floor, growth by L of a few units
         let mut a = stdworlds::dust_alphabet(b.w.positions.len() as u8);
@@ -125,6 +174,7 @@ fn model<'a>(b: &'a Built, stats: &'a Mutex<C06Stats>) -> PoolModel<'a> {
                 g.crossings += local.crossings;
                 g.nonzero_protocol_cut += local.nonzero_protocol_cut;
                 g.cut_without_growth += local.cut_without_growth;
+                g.steps_rate_above_16_bits += local.steps_rate_above_16_bits;
                 res
             }
             Op::CollectProtocol { .. } => oracles::c06_collect_protocol_oracle(pre, &st.ledger, w),
@@ -156,6 +206,7 @@ pub fn run(ctx: &Ctx) -> Report {
     r.guard("steps_with_nonzero_protocol_cut", s.nonzero_protocol_cut);
     r.guard("tick_crossings", s.crossings);
     r.guard("steps_with_protocol_cut_but_zero_growth", s.cut_without_growth);
+    r.guard("steps_charged_a_total_rate_above_65535", s.steps_rate_above_16_bits);
     r.set("exhaustive", false);
     r.assume("hook H2 records the values compute_swap actually received/returned (liquidity, fee rate, amounts per step)");
     r.assume("svm-lite faithfully replaces the validator (DESIGN §2.1)");
